@@ -529,19 +529,35 @@ def per_message_state_rule(chk: Check, eng: Engine, rule: str) -> None:
                 g = ev.lookup(x.func.attr)
                 if g is not None and g.name not in ("start_next_message",):
                     todo.append(g)
-    reset = set()
+    reset_stmts: dict[str, list[ast.AST]] = {}
     for x in walk_local(start.node):
         if isinstance(x, ast.Call) and isinstance(x.func, ast.Attribute) and x.func.attr == "clear" and self_attr(x.func.value):
-            reset.add(self_attr(x.func.value))
+            reset_stmts.setdefault(self_attr(x.func.value), []).append(x)
         if isinstance(x, ast.Assign):
             for t in x.targets:
                 if self_attr(t):
-                    reset.add(self_attr(t))
+                    reset_stmts.setdefault(self_attr(t), []).append(x)
+    # emptied on *every* path through start_next_message: a reset under a condition leaves the entries of the previous message in place otherwise
+    scfg = eng.cfg(start)
+    reset = set()
+    conditional: dict[str, list[str]] = {}
+    for attr, sts in reset_stmts.items():
+        through = [i for st in sts for i in scfg.stmt_nodes_containing(st)]
+        w = scfg.all_paths_pass(scfg.entry, [scfg.exit], through) if through else [(scfg.entry, "next")]
+        if w is None:
+            reset.add(attr)
+        else:
+            conditional[attr] = scfg.describe_path(w)
     if len(written) < 2:
         raise AnalysisError(f"IoEvaluator.evaluate_individual: only {len(written)} container attribute(s) found that grow during a message")
     for attr, line in sorted(written.items()):
         if attr in reset:
             chk.ok(rule, start.fq, start.line, f"`self.{attr}` (filled by evaluate_individual, line {line}) is emptied when the next message starts")
+        elif attr in conditional:
+            chk.bad(rule, eng.relfile(start), start.line, start.fq, f"`self.{attr}` is filled while a message is searched (line {line}) and emptied by start_next_message only on some paths",
+                    "when the condition does not hold, entries of an earlier step survive: a held-back individual is a whole interaction tree whose prefix is the history of that earlier "
+                    "step - when the search falls back to the hold-back set it sends an old candidate and replaces the recorded history by the stale prefix",
+                    path=conditional[attr], keyparts=f"per-message-state-conditional|{attr}")
         else:
             chk.bad(rule, eng.relfile(start), start.line, start.fq, f"`self.{attr}` is filled while a message is searched (line {line}) and not emptied by start_next_message",
                     "entries of an earlier step survive: a held-back individual is a whole interaction tree whose prefix is the history of that earlier step - when the search falls back "
@@ -722,6 +738,7 @@ _ALG = "src/fandango/evolution/algorithm.py"
 _EV = "src/fandango/evolution/evaluation.py"
 MUTANTS = [
     M("hold-back-set-survives-the-message", "src/fandango/evolution/evaluation.py", "        self._hold_back_solutions.clear()\n        self._solution_set.clear()\n", "        self._solution_set.clear()\n", "R20-j"),
+    M("hold-back-set-emptied-only-for-a-new-run", "src/fandango/evolution/evaluation.py", "        self._hold_back_solutions.clear()\n        self._solution_set.clear()\n", "        if len(past_trees) != len(self._past_trees):\n            self._hold_back_solutions.clear()\n        self._solution_set.clear()\n", "R20-j"),
     M("history-filter-any-instead-of-all", "src/fandango/io/navigation/packetforecaster.py", "            for suggested_tree, is_complete in self._parser.consume(history_nts):\n", "            for suggested_tree, is_complete in self._parser.consume(history_nts):\n                if not any(r.sender == o.sender and r.recipient == o.recipient and r.msg.symbol.name()[9:] == o.msg.symbol.name()[1:] for o, r in zip(tree.protocol_msgs(), suggested_tree.protocol_msgs())):\n                    continue\n", "R20-h"),
     M("recipient-compared-with-itself", "src/fandango/io/navigation/packetforecaster.py", "                        and r_msg.recipient == orig_r_msg.recipient\n", "                        and r_msg.recipient == r_msg.recipient\n", "R20-h"),
     M("recipient-not-compared", "src/fandango/io/navigation/packetforecaster.py", "                        and r_msg.recipient == orig_r_msg.recipient\n", "", "R20-h"),
